@@ -125,8 +125,8 @@ Proof.
   destruct (linefilter Op 2 hi L0 h0 M_SYMM) as [hl|] eqn:Ehl; [|contradiction]. cbn [is_ok bind] in *. destruct Hhl as (C1 & C2 & C3 & C4 & _).
   pose proof (lf_cf_col hi L1 h1 L1p L1o ltac:(lia) ltac:(lia) ltac:(lia)) as Hhh.
   destruct (linefilter Op 2 hi L1 h1 M_SYMM) as [hh|] eqn:Ehh; [|contradiction]. cbn [is_ok bind fst snd] in *. destruct Hhh as (D1 & D2 & D3 & D4 & _).
-  pose proof (quad_adj Op Rth cancel2 s lh g15r g15i g165r g165i) as Qlh. pose proof (quad_adj Op Rth cancel2 s hl g75r g75i g105r g105i) as Qhl.
-  pose proof (quad_adj Op Rth cancel2 s hh g45r g45i g135r g135i) as Qhh.
+  pose proof (quad_adj Op Rth s lh g15r g15i g165r g165i) as Qlh. pose proof (quad_adj Op Rth s hl g75r g75i g105r g105i) as Qhl.
+  pose proof (quad_adj Op Rth s hh g45r g45i g135r g135i) as Qhh.
   unfold highs_to_orientations.
   destruct (q2c Op s lh) as ((d15r, d15i), (d165r, d165i)).
   destruct (q2c Op s hh) as ((d45r, d45i), (d135r, d135i)).
